@@ -109,10 +109,10 @@ Definition step (b : bstate) (c : cb) : bstate :=
       match b_cur b with
       | Some t => if (is_loc t s || is_bp t s) && (is_loc t d || is_bp t d)
                   then mkb (b_done b) (Some (with_edges t (dt_edges t ++ [mkdedge s d ctl [] None None None None]))) (PCur (length (dt_edges t)))
-                  else b                                           (* error reported; currentEdge keeps pointing at the previous edge *)
+                  else b                                           (* error reported; currentEdge stays null (reset by the previous proc_edge_end) *)
       | None => b
       end
-  | EdgeEnd => b
+  | EdgeEnd => mkb (b_done b) (b_cur b) PNone                 (* proc_edge_end resets currentEdge *)
   | Select l => on_cur_edge b (fun e => mkdedge (de_src e) (de_dst e) (de_control e) (de_selects e ++ [l]) (de_guard e) (de_sync e) (de_update e) (de_prob e))
   | Guard l => on_cur_edge b (fun e => mkdedge (de_src e) (de_dst e) (de_control e) (de_selects e) (Some l) (de_sync e) (de_update e) (de_prob e))
   | Sync l => on_cur_edge b (fun e => mkdedge (de_src e) (de_dst e) (de_control e) (de_selects e) (de_guard e) (Some l) (de_update e) (de_prob e))
